@@ -282,9 +282,12 @@ class RefType:
         elif k == "measure":
             self.measured = True
         elif k == "enable_eom_mode":
-            self.chans[op["ch"]]["in_eom"] = True
+            # (a call accepted on a name the model does not know was already reported)
+            if op["ch"] in self.chans:
+                self.chans[op["ch"]]["in_eom"] = True
         elif k == "disable_eom_mode":
-            self.chans[op["ch"]]["in_eom"] = False
+            if op["ch"] in self.chans:
+                self.chans[op["ch"]]["in_eom"] = False
         elif k in ("target", "target_index"):
             if op["ch"] in self.chans:
                 self.chans[op["ch"]]["has_target"] = True
